@@ -142,8 +142,13 @@ theorem dfsStep_inv (rows : List Row) (nodeEv : Int → Bool) (parent : Int → 
     ∀ d ∈ (dfsStep nodeEv parent blocking s t).2, tsOf rows d.src ≤ tsOf rows d.dst := by
   unfold dfsStep
   split
-  · exact ⟨⟨fun n h => Int.le_trans (inv.last n h) hT, fun n h => Int.le_trans (inv.high n h) hT⟩,
-      by intro d hd; cases hd⟩
+  · refine ⟨⟨?_, ?_⟩, by intro d hd; cases hd⟩
+    · intro n h
+      have h' : s.lastNode = some n := by split at h <;> exact h
+      exact Int.le_trans (inv.last n h') hT
+    · intro n h
+      have h' : s.lastHigh = some n := by split at h <;> exact h
+      exact Int.le_trans (inv.high n h') hT
   · rename_i hne
     have hne' : nodeEv t.idx = true := by simpa using hne
     have htime := hts hne'
